@@ -3,6 +3,8 @@
 package corerad
 
 import (
+	"syscall"
+	"io/fs"
 	"fmt"
 	"bytes"
 	"context"
@@ -33,6 +35,7 @@ type vfPathState struct {
 	mu       sync.Mutex
 	fw       map[string]bool
 	failNext map[string]bool // the next IPv6Forwarding read for the interface fails (once)
+	nFail    int
 	pluginFail map[string]bool // the next address listing for the interface's wildcard plugin fails (once)
 }
 
@@ -42,6 +45,13 @@ func (s *vfPathState) IPv6Forwarding(i string) (bool, error) {
 	defer s.mu.Unlock()
 	if s.failNext[i] {
 		s.failNext[i] = false
+		// alternately a plain error and "permission denied" on the sysctl file (a MAC policy, a masked
+		// /proc/sys): both leave the forwarding state UNKNOWN, and both are fatal to a task (the
+		// dialer does not retry permission errors), so the histories' outcomes are the same
+		s.nFail++
+		if s.nFail%2 == 0 {
+			return false, &fs.PathError{Op: "open", Path: "/proc/sys/net/ipv6/conf/" + i + "/forwarding", Err: syscall.EACCES}
+		}
 		return false, errors.New("scripted: transient failure reading the forwarding sysctl")
 	}
 	return s.fw[i], nil
